@@ -107,8 +107,8 @@ PLAN["C02"] = dict(
     rule=RX_GEN % 10 + "; the final slot and one other slot are compiled with compile and try_compile(n+3). Non-trivial = automaton of the final slot has >= 3 states and its language is neither empty nor everything; distinct = digest of (landmarks, program).",
     oracle="structure: every state's ranges sorted, disjoint, inside [0,0x2FFFF]; a default successor whenever a character is uncovered; next() returns without panic on every break-point character of every state (0 and 0x2FFFF included); language: product of the reference DFA with the crate automaton through next() from the initial state (exact equality, not sampled strings); accepts/str_next on sampled strings against the DP matcher",
     assumptions=RX_ASSUME,
-    quick=dict(proptest={"rel": (12, 3000), "dbg": (4, 1200)}),
-    thorough=dict(proptest={"rel": (16, 60000), "dbg": (8, 15000)}),
+    quick=dict(proptest={"rel": (12, 12000), "dbg": (4, 3000)}),
+    thorough=dict(proptest={"rel": (16, 250000), "dbg": (8, 60000)}),
 )
 
 PLAN["C03"] = dict(
@@ -116,8 +116,8 @@ PLAN["C03"] = dict(
          "Non-trivial = the term has >= 2 classes and a query set straddles classes; distinct = digest of (landmarks, program).",
     oracle="for every probed character c: char_derivative(e,c) and class_derivative(e, class of c) are bisimilar (R5) to the reference state after c, i.e. denote exactly c^-1 L(e) for all continuation strings, so every character of a class gives the class derivative; str_derivative is pointer-equal to the fold of char_derivative; class ids cover the alphabet (Complement listed iff something is uncovered, computed from char_ranges); invalid ids => Err(BadClassId); set_derivative(e,[a,b]) => Ok(common derivative, checked against the quotient at both ends) when the set lies in one class by linear scan, Err(_) when it meets more than one",
     assumptions=RX_ASSUME + ["the error variant of set_derivative is not checked (statement: 'an error')"],
-    quick=dict(proptest={"rel": (12, 3000), "dbg": (4, 1200)}),
-    thorough=dict(proptest={"rel": (16, 60000), "dbg": (8, 15000)}),
+    quick=dict(proptest={"rel": (12, 12000), "dbg": (4, 3000)}),
+    thorough=dict(proptest={"rel": (16, 250000), "dbg": (8, 60000)}),
 )
 
 PLAN["C05"] = dict(
@@ -125,8 +125,8 @@ PLAN["C05"] = dict(
          "Non-trivial = final language empty although the term is not the syntactic empty term, or a witness of length >= 2; distinct = digest of (landmarks, program).",
     oracle="is_empty_re(e) <=> the reference DFA has no reachable final state; get_string(e) is None <=> empty; a witness is_good(), is a member by the DP matcher (R3), by str_in_re, and is accepted by compile(e)",
     assumptions=RX_ASSUME,
-    quick=dict(proptest={"rel": (12, 4000), "dbg": (4, 1500)}),
-    thorough=dict(proptest={"rel": (16, 80000), "dbg": (8, 20000)}),
+    quick=dict(proptest={"rel": (12, 15000), "dbg": (4, 4000)}),
+    thorough=dict(proptest={"rel": (16, 300000), "dbg": (8, 80000)}),
 )
 
 PLAN["C18"] = dict(
@@ -134,16 +134,16 @@ PLAN["C18"] = dict(
          "Non-trivial = the program contains an intersection/difference or a semantically empty sub-term, and both answers occur over the probed characters; distinct = digest of (landmarks, program).",
     oracle="start_char(e,c) <=> in the reference DFA the state after atom(c) can reach a final state; start_class(e,cid) gives that value for every probed character of the class (classes recomputed from char_ranges by linear scan); invalid id => Err(BadClassId)",
     assumptions=RX_ASSUME,
-    quick=dict(proptest={"rel": (12, 4000), "dbg": (4, 1500)}),
-    thorough=dict(proptest={"rel": (16, 80000), "dbg": (8, 20000)}),
+    quick=dict(proptest={"rel": (12, 12000), "dbg": (4, 3000)}),
+    thorough=dict(proptest={"rel": (16, 250000), "dbg": (8, 60000)}),
 )
 
 PLAN["C19"] = dict(
     rule=RX_GEN % 10 + "; bounds n in {0, 1, N-1, N, N+1, 2N, usize::MAX, random} where N is the derivative count measured by the harness's own BFS. Non-trivial = N >= 4; distinct = digest of (landmarks, program).",
     oracle="iter_derivatives(e): first item is e (pointer), no item repeats, item set == closure computed independently by BFS with char_derivative over all class-boundary characters, and the yielded set is closed; try_compile(e,n) is Some <=> N <= n (None for n = 0); compile(e) succeeds; num_states() == N in both",
     assumptions=RX_ASSUME + ["termination of iter_derivatives is only observable up to the cap of 400 derivatives (a case above the cap is a counted discard; a hang is caught by the watchdog and reported as exit 2)"],
-    quick=dict(proptest={"rel": (12, 4000), "dbg": (4, 1500)}),
-    thorough=dict(proptest={"rel": (16, 80000), "dbg": (8, 20000)}),
+    quick=dict(proptest={"rel": (12, 12000), "dbg": (4, 3000)}),
+    thorough=dict(proptest={"rel": (16, 250000), "dbg": (8, 60000)}),
 )
 
 AUTO_GEN = ("generation: tapes decoded either (35%) into a regex program that is compiled, or (65%) into a semantic DFA over 1-4 landmarks' atoms (1-5 base states whose rows are runs of consecutive atoms, all-final / none-final variants), "
@@ -176,4 +176,31 @@ PLAN["C14"] = dict(
     assumptions=AUTO_ASSUME,
     quick=dict(proptest={"rel": (12, 10000), "dbg": (4, 3000)}),
     thorough=dict(proptest={"rel": (16, 200000), "dbg": (8, 50000)}),
+)
+
+PLAN["C07"] = dict(
+    rule="stateful generation: a tape is decoded into 2-15 operations on ONE manager: Build(constructor call on earlier slots, unions/intersections of two different earlier slots in either operand order over-weighted), Rebuild(k) (the very same call with the very same argument terms), Deriv(k,c), StrDeriv(k,w) (new slots whose reference language is the quotient), Compile(k), IsEmpty(k), GetString(k), Member(k,w), Noise (1-6 unrelated terms shifting ids and parity); 80% on a local ReManager, 20% through the re_* wrappers on the thread-local manager in a fresh thread. At the end every construction is re-issued once more and rebuilt on a fresh manager. "
+         "Non-trivial = a Rebuild (or the final re-issue) separated from its Build by >= 3 allocating operations including a derivative/compile/emptiness call, and a union/intersection whose operands are not in increasing slot order; distinct = digest of (manager kind, landmarks, operation list).",
+    oracle="model: every slot carries the term and its reference DFA (constructor slots: reference operation on the operands' DFAs; derivative slots: reference quotient). After every step: Rebuild is == and pointer-identical; for all pairs of slots a == b <=> same address, and same address => equal reference languages; complement(complement(e)) is e and complement(e) differs from e; the language of each new term (and of its complement) equals its reference by bisimulation (R5), again at the end of the history and on a fresh manager (history independence); is_empty_re/str_in_re answers agree with the reference at every point of the history",
+    assumptions=RX_ASSUME + ["union(a,b) and union(b,a) are different argument lists: only equal languages are required of them, not identity", "through the wrappers languages are compared on shortest members/non-members and sampled strings (no derivative API is exposed there)"],
+    quick=dict(proptest={"rel": (12, 4000), "dbg": (4, 1500)}),
+    thorough=dict(proptest={"rel": (16, 80000), "dbg": (8, 20000)}),
+)
+
+PLAN["C10"] = dict(
+    rule="generation: regex programs of 1-8 instructions over the landmarks a..c (so matches are frequent; nullable, empty, complemented and semantically empty patterns arise from the same constructors), 1-3 subject strings of length 0-8 (80% landmark letters, else other atom representatives), a replacement of length 0-3 that may itself match; executed through the re_* / str_replace_re(_all) wrappers in a fresh thread, each call twice (cold and warm derivative cache). "
+         "Non-trivial = a match exists and (the pattern is nullable, or >= 2 match lengths are possible at the chosen start, or >= 2 replacements are made); distinct = digest of (program, subjects, replacement).",
+    oracle="membership matrix M[i][j] of the subject from the DP matcher (R3); replace_re: least i with some j >= i, M[i][j], then least such j (j = i allowed): s[..i].t.s[j..], or s if none; replace_re_all: from p, least i >= p with some j > i, least such j, emit s[p..i].t, continue at j, copy the tail; exact equality of the results",
+    assumptions=COMMON_ASSUMPTIONS + ["loop-range arithmetic overflow (documented panic) is a counted discard"],
+    quick=dict(proptest={"rel": (12, 6000), "dbg": (4, 2000)}),
+    thorough=dict(proptest={"rel": (16, 120000), "dbg": (8, 30000)}),
+)
+
+PLAN["C16"] = dict(
+    rule="generation: a pattern s = concatenation of 1-5 elements (ranges, Sigma*, loops of ranges, all_chars) and a term r derived from it element-wise (same / narrower range / near miss: wider or shifted range, loop instead of range, dropped or duplicated element; Sigma* replaced by 0-3 arbitrary elements incl. complements and loops), then 0-5 wrappers (complement of r or s, unions and intersections with other slots, random constructor calls); included_in is queried on EVERY ordered pair of slots. "
+         "Non-trivial = included_in returned true for two different terms where the first language is not empty and the second is not everything; distinct = digest of (landmarks, program).",
+    oracle="r.included_in(s) = true => L(r) subset of L(s) by the reference DFAs (R4: product with the complement is empty); false is never judged; every union / union_list slot is bisimilar (R5) to the reference union of its operands (so a pruned operand never loses strings)",
+    assumptions=RX_ASSUME,
+    quick=dict(proptest={"rel": (12, 5000), "dbg": (4, 1500)}),
+    thorough=dict(proptest={"rel": (16, 100000), "dbg": (8, 25000)}),
 )
